@@ -78,6 +78,9 @@ func run(tapeJSON json.RawMessage, res *core.Result) {
 	for _, s := range spns[:5] {
 		sim.AddService(s)
 	}
+	for i := 1; i <= 16; i++ {
+		sim.AddService(uniqueSPN(i)) // one service per task: a request for it is never served from the cache the first time
+	}
 	other.AddService(spns[5])
 	sim.Referral[spns[5]] = "OTHER.TEST"
 	sim.AddKeyUser("alice", 2)
